@@ -200,3 +200,32 @@ def calls_on_container(facts, container, scope=None):
             if tr.last_field == container:
                 out.append((b, t, short_callee(t.callee)))
     return out
+
+
+import re as _re
+
+
+def const_duration_ns(facts, name):
+    """evaluated std::time::Duration constant -> nanoseconds (None if absent / not a Duration)"""
+    p = facts.const_pretty(name)
+    if not p:
+        return None
+    m = _re.search(r"secs: (\d+)_u64, nanos: [^(]*\((\d+)_u32", p)
+    if not m:
+        return None
+    return int(m.group(1)) * 1_000_000_000 + int(m.group(2))
+
+
+def edge_truth(label, neg=False):
+    v = (label[1] != 0) if label[0] == "val" else (0 in label[1])
+    return (not v) if neg else v
+
+
+def controlling(body, bb):
+    """[(Cond, truth, description)] for the switch edges every path to bb must take"""
+    from utpsa.flow import controlling_edges, describe_cond
+    out = []
+    for t, tgt, lab in controlling_edges(body, bb):
+        c, neg = switch_cond(body, t)
+        out.append((c, edge_truth(lab, neg), describe_cond(body, t, lab), t, tgt, lab))
+    return out
